@@ -281,11 +281,11 @@ def run(chk):
     for (q, kind), t, o in zip(others, texts, outs):
         kinds[kind] = kinds.get(kind, 0) + 1
         if not o.startswith("J "):
-            found.append((f"C11: {kind} project: {o[:160]}", {"text": t, "kind": kind, "impl": o[:2000]}))
+            found.append((f"C11: {kind} project: {o[:160]}", {"text": t, "kind": kind, "impl": o[:2000], "case_ast": q}))
             continue
         ob = json.loads(o[2:])
         if "error" in ob and ob["error"] != "ParseError":
-            found.append((f"C11: {kind} project raised an internal error: {ob}", {"text": t, "kind": kind, "impl": ob}))
+            found.append((f"C11: {kind} project raised an internal error: {ob}", {"text": t, "kind": kind, "impl": ob, "case_ast": q}))
             continue
         if "error" in ob:
             kinds[kind + ":rejected"] = kinds.get(kind + ":rejected", 0) + 1
@@ -302,10 +302,10 @@ def run(chk):
                             t2.get("end") is not None or any(nodes[a].get("end") is not None for a in A.ancestors(fid) if a in nodes)):
                         user_pinned = True
                     if not user_pinned:
-                        found.append((f"C11: {kind} project: task {fid} scheduled with start > end", {"text": t, "kind": kind}))
+                        found.append((f"C11: {kind} project: task {fid} scheduled with start > end", {"text": t, "kind": kind, "case_ast": q}))
             unsched = [f for f, x in sc["tasks"].items() if x["leaf"] and not x["scheduled"]]
             if unsched and not ({"unscheduled_tasks", "deadlock"} & set(ob["warnings"])):
-                found.append((f"C11: {kind} project: tasks {unsched[:3]} unscheduled without any warning", {"text": t, "kind": kind}))
+                found.append((f"C11: {kind} project: tasks {unsched[:3]} unscheduled without any warning", {"text": t, "kind": kind, "case_ast": q}))
     # (ii) corrupted texts: parse error or a schedule, never a crash / hang / internal error
     valid_texts = [render.render(p) for p in base[: max(50, n_mal // 8)]]
     mal = []
@@ -379,4 +379,51 @@ def run(chk):
                        "2-8 deep, resolutions 60-5 min): CPU time at the largest size at most 4 x (size ratio) x the time at the smallest; "
                        "non-trivial = distinct texts")
     chk.assumptions += ["Lark's behaviour, Python exceptions in glue code, recursion limits and wall-clock are observed, not modelled (partial)"]
+    return conclude(chk, dis, lambda: found)
+
+
+def replay(chk, payload):
+    """re-run the recorded input: a project of the comparable stream (AST: model tie + outcome), or a text of the infeasible /
+    corrupted / macro / scaling streams (outcome class, time budget, start <= end, unscheduled => warning)"""
+    from .common import replay_items
+    found, dis = [], []
+    for it in replay_items(chk):
+        if isinstance(it.get("ast"), dict) and not (it.get("kind") or it.get("corruption") or it.get("macro_kind")):
+            r = project_stream.run_projects(chk, [it["ast"]], want_oracles=())[0]
+            if r["diffs"] and not r["skipped"]:
+                dis.append({"stream": "project", "text": r["text"], "ast": r["ast"], "diffs": r["diffs"][:6]})
+            o = r["obs"]
+            if o is None or "error" in o:
+                found.append((f"C11: scheduling a grammatical project failed with {str(o)[:160]}", {"text": r["text"], "ast": r["ast"], "impl": o}))
+            chk.cov["evaluations"] += 1
+            continue
+        t = it.get("text")
+        if not isinstance(t, str):
+            continue
+        q = it.get("case_ast") if isinstance(it.get("case_ast"), dict) else None
+        kind = it.get("kind") or it.get("corruption") or it.get("macro_kind") or it.get("family") or "replay"
+        budget = budget_of(q) if q else (300 if it.get("family") else 60)
+        o = chk.impl.run(["J " + json.dumps({"op": "sched", "text": t, "budget": budget})])[0]
+        chk.cov["evaluations"] += 1
+        if not o.startswith("J "):
+            found.append((f"C11: {kind}: {o[:200]}", {"text": t, "kind": kind, "impl": o[:2000]}))
+            continue
+        ob = json.loads(o[2:])
+        if "error" in ob and ob["error"] != "ParseError":
+            found.append((f"C11: {kind} raised an internal error: {ob}", {"text": t, "kind": kind, "impl": ob}))
+            continue
+        if "error" in ob or it.get("corruption") or it.get("macro_kind"):
+            continue
+        for sc in ob["scenarios"]:
+            for fid, x in sc["tasks"].items():
+                if x["leaf"] and x["scheduled"] and x["start"] is not None and x["end"] is not None and x["start"] > x["end"]:
+                    nodes = {f2: t2 for f2, t2, _, _ in (A.flat_tasks(q) if q else [])}
+                    t2 = nodes.get(fid)
+                    pinned = t2 is not None and t2.get("start") is not None and (
+                        t2.get("end") is not None or any(nodes[a].get("end") is not None for a in A.ancestors(fid) if a in nodes))
+                    if not pinned and q is not None:
+                        found.append((f"C11: {kind} project: task {fid} scheduled with start > end", {"text": t, "kind": kind}))
+            unsched = [f for f, x in sc["tasks"].items() if x["leaf"] and not x["scheduled"]]
+            if unsched and not ({"unscheduled_tasks", "deadlock"} & set(ob["warnings"])):
+                found.append((f"C11: {kind} project: tasks {unsched[:3]} unscheduled without any warning", {"text": t, "kind": kind}))
     return conclude(chk, dis, lambda: found)
